@@ -111,6 +111,7 @@ type Backend struct {
 	ActiveConnections int32        // Number of active connections
 	Weight            int          // Weight for weighted load balancing strategies
 	Mutex             sync.RWMutex // Mutex for thread-safe operations
+	gaugeMu           sync.Mutex   // orders the publication of ActiveConnections to the metrics collector
 }
 
 // healthChecker manages health checks for backends
@@ -739,14 +740,23 @@ func (lb *LoadBalancer) findHealthyBackend(r *http.Request) *Backend {
 	return nil
 }
 
+// publishConnections copies the backend's in-flight count to the metrics
+// collector. Reading the count and publishing it happen under one lock per
+// backend: otherwise a request that read the count earlier could publish it
+// after a later request's value, and the gauge would stay wrong while idle.
+func (lb *LoadBalancer) publishConnections(backend *Backend) {
+	backend.gaugeMu.Lock()
+	defer backend.gaugeMu.Unlock()
+	lb.metricsCollector.UpdateBackendConnections(backend.Name, backend.GetActiveConnections())
+}
+
 // proxyRequest forwards the request to a backend and handles the response
 func (lb *LoadBalancer) proxyRequest(backend *Backend, w http.ResponseWriter, r *http.Request, startTime time.Time) error {
 	// Track the active connection
 	backend.IncrementConnections()
 	vhook.Yield("lb.proxy.inc")
-	inFlight := backend.GetActiveConnections()
 	vhook.Yield("lb.proxy.publish")
-	lb.metricsCollector.UpdateBackendConnections(backend.Name, inFlight)
+	lb.publishConnections(backend)
 
 	// Create a custom response writer to capture the status code
 	rw := &responseWriter{
@@ -759,9 +769,8 @@ func (lb *LoadBalancer) proxyRequest(backend *Backend, w http.ResponseWriter, r 
 	defer func() {
 		backend.DecrementConnections()
 		vhook.Yield("lb.proxy.dec")
-		inFlight := backend.GetActiveConnections()
 		vhook.Yield("lb.proxy.publish")
-		lb.metricsCollector.UpdateBackendConnections(backend.Name, inFlight)
+		lb.publishConnections(backend)
 
 		if rec := recover(); rec != nil {
 			// The response was cut short: count the request as failed. The
